@@ -1266,4 +1266,347 @@ theorem initModules_wf (st : Stype) (na : Option NA) (stats : List (ColStat R)) 
       exact ⟨⟨mkParams_wf S stats ch w p h2, mkFill_wf S st na stats fill h1, hpost⟩, rfl⟩
 end
 
+
+/-! ## `forward` is a per-cell function -/
+
+section
+variable {R : Type} (S : SOps R)
+
+theorem cell_some_split {α : Type} {x : Mat α} {r c : Nat} {a : α} (h : cell x r c = some a) :
+    ∃ row, x[r]? = some row ∧ row[c]? = some a := by
+  unfold cell at h
+  cases hr : x[r]? with
+  | none => simp [hr] at h
+  | some row => simp only [hr, Option.bind_some] at h; exact ⟨row, rfl, h⟩
+
+theorem bag_cell_eq (mode : BagMode) (tables : T3 R) (ch : Nat) (feat : Mat (List Int)) (y : T3 R)
+    (h : bagEncode S mode tables ch feat = some y) (r c : Nat) :
+    cell y r c = (feat[r]?).bind fun row =>
+      if c < tables.length then some (bagReduce S mode (tables.getD c []) ch (row.getD c [])) else none := by
+  unfold bagEncode at h
+  split at h
+  · injection h with h
+    subst h
+    simp only [List.map_map]
+    have hst := stackDim1_rows feat tables.length
+      (fun i (row : List (List Int)) => bagReduce S mode (tables.getD i []) ch (row.getD i []))
+    simp only [Function.comp_def] at hst ⊢
+    rw [hst, cell_rows_range]
+  · cases h
+
+/-- `na_forward` acts cell by cell -/
+theorem naForward_per_cell (p : Params R) (fill : Option (Fill R)) (feat f1 : Feat R) (r c : Nat)
+    (h : naForward S fill feat = some f1) :
+    cellAt p f1 r c = (cellAt p feat r c).bind (cellImpute S fill c) := by
+  cases fill with
+  | none =>
+    simp only [naForward] at h; injection h with h; subst h
+    cases cellAt p feat r c <;> simp [cellImpute]
+  | some fl =>
+    cases fl <;> cases feat <;> simp only [naForward] at h <;> try (cases h; done)
+    all_goals
+      injection h with h; subst h
+      simp only [cellAt, cell_bcast2]
+      rename_i v x
+      cases cell x r c <;> cases hvc : v[c]? <;> simp [cellImpute, hvc]
+
+/-- `encode_forward` acts cell by cell with the parameters of the cell's column -/
+theorem encodeForward_per_cell (p : Params R) (ch C : Nat) (f1 : Feat R) (y : T3 R) (r c : Nat) (v : CellVal R)
+    (h : encodeForward S p ch C f1 = some y) (hc : c < C) (hv : cellAt p f1 r c = some v) :
+    cell y r c = cellEncode S p ch c v := by
+  cases p <;> cases f1 <;> simp only [encodeForward] at h <;> try (cases h; done)
+  all_goals simp only [cellAt, Option.map_eq_some_iff] at hv
+  · injection h with h; subst h
+    obtain ⟨x, hx, rfl⟩ := hv
+    rw [linear_per_cell, hx]; simp [cellEncode]
+  · injection h with h; subst h
+    obtain ⟨x, hx, rfl⟩ := hv
+    rw [stack_per_cell, hx]; simp [cellEncode]
+  · injection h with h; subst h
+    obtain ⟨x, hx, rfl⟩ := hv
+    obtain ⟨row, hr, hx'⟩ := cell_some_split hx
+    rw [bucket_per_cell S _ _ _ ch C _ r c row x hr hx' hc]; simp [cellEncode]
+  · injection h with h; subst h
+    obtain ⟨x, hx, rfl⟩ := hv
+    rw [periodic_per_cell, hx]; simp [cellEncode]
+  · injection h with h; subst h
+    obtain ⟨x, hx, rfl⟩ := hv
+    rw [excel_per_cell, hx]; simp [cellEncode]
+  · obtain ⟨i, hx, rfl⟩ := hv
+    rw [embedding_per_cell _ _ _ y h, hx]; simp [cellEncode]
+  · obtain ⟨b, hx, rfl⟩ := hv
+    obtain ⟨row, hr, hx'⟩ := cell_some_split hx
+    rename_i mode ts x
+    by_cases hct : c < ts.length
+    · rw [bag_per_cell S mode ts ch x y h r c row b hr hx' hct]; simp [cellEncode, hct]
+    · -- column beyond the encoder's tables: the stacked result has no such column
+      rw [bag_cell_eq S mode ts ch x y h r c, hr]; simp [cellEncode, hct]
+  · obtain ⟨ts, hx, rfl⟩ := hv
+    rw [timestamp_per_cell S _ _ _ _ _ ch _ y h, hx]; simp [cellEncode]
+  · rename_i ds ws bs off vals
+    cases hr : vals[r]? with
+    | none => simp [hr] at hv
+    | some row =>
+      simp only [hr, Option.bind_some] at hv
+      split at hv
+      · rename_i hcd
+        injection hv with hv; subst hv
+        rw [linearEmb_per_cell S ds ws bs ch vals y h r c row hr hcd]; simp [cellEncode]
+      · cases hv
+
+theorem cellImpute_some (p : Params R) (fill : Option (Fill R)) (feat f1 : Feat R) (r c C : Nat) (v : CellVal R)
+    (h1 : naForward S fill feat = some f1) (hfill : Fill.WF fill C) (hc : c < C)
+    (hv : cellAt p feat r c = some v) : ∃ v1, cellImpute S fill c v = some v1 := by
+  cases fill with
+  | none => exact ⟨v, by cases v <;> rfl⟩
+  | some fl =>
+    cases fl with
+    | num fv =>
+      cases feat <;> simp only [naForward] at h1 <;> try (cases h1; done)
+      simp only [cellAt, Option.map_eq_some_iff] at hv
+      obtain ⟨x, _, rfl⟩ := hv
+      simp only [Fill.WF] at hfill
+      have hlt : c < fv.length := by omega
+      simp [cellImpute, List.getElem?_eq_getElem hlt]
+    | int fv =>
+      cases feat <;> simp only [naForward] at h1 <;> try (cases h1; done)
+      all_goals
+        simp only [cellAt, Option.map_eq_some_iff] at hv
+        obtain ⟨x, _, rfl⟩ := hv
+        simp only [Fill.WF] at hfill
+        have hlt : c < fv.length := by omega
+        simp [cellImpute, List.getElem?_eq_getElem hlt]
+    | time fv =>
+      cases feat <;> simp only [naForward] at h1 <;> try (cases h1; done)
+      simp only [cellAt, Option.map_eq_some_iff] at hv
+      obtain ⟨x, _, rfl⟩ := hv
+      simp only [Fill.WF] at hfill
+      have hlt : c < fv.length := by omega
+      simp [cellImpute, List.getElem?_eq_getElem hlt]
+
+/-- the batched `forward` computes, in entry `[r, c]`, the per-cell function of the cell `(r, c)`:
+    impute with the column's fill value, encode with the column's parameters, `nan_to_num`, post module -/
+theorem forward_per_cell (e : Encoder R) (B C n : Nat) (feat : Feat R) (o : Out R) (r c : Nat) (v : CellVal R)
+    (hfill : Fill.WF e.fill C)
+    (h : forward S e B C n feat = some o) (hc : c < C) (hv : cellAt e.params feat r c = some v) :
+    cell o.data r c = cellForward S e c v := by
+  unfold forward at h
+  split at h
+  · cases h
+  · cases h1 : naForward S e.fill feat with
+    | none => simp [h1, bind, Option.bind] at h
+    | some f1 =>
+      cases h2 : encodeForward S e.params e.ch C f1 with
+      | none => simp [h1, h2, bind, Option.bind] at h
+      | some y =>
+        simp only [h1, h2, bind, Option.bind, pure] at h
+        injection h with h
+        subst h
+        simp only [cell_map2]
+        have hna := naForward_per_cell S e.params e.fill feat f1 r c h1
+        rw [hv, Option.bind_some] at hna
+        obtain ⟨v1, hi⟩ := cellImpute_some S e.params e.fill feat f1 r c C v h1 hfill hc hv
+        rw [hi] at hna
+        unfold cellForward
+        rw [hi, Option.bind_some, encodeForward_per_cell S e.params e.ch C f1 y r c v1 h2 hc hna]
+        cases hce : cellEncode S e.params e.ch c v1 <;> simp
+
+/-- changing cells other than `(r, c)` (even the batch size) does not change the embedding of `(r, c)` -/
+theorem perturb_local (e : Encoder R) (B B' C n : Nat) (feat feat' : Feat R) (o o' : Out R) (r r' c : Nat)
+    (v : CellVal R) (hfill : Fill.WF e.fill C) (hc : c < C)
+    (h : forward S e B C n feat = some o) (h' : forward S e B' C n feat' = some o')
+    (hv : cellAt e.params feat r c = some v) (hv' : cellAt e.params feat' r' c = some v) :
+    cell o.data r c = cell o'.data r' c := by
+  rw [forward_per_cell S e B C n feat o r c v hfill h hc hv,
+      forward_per_cell S e B' C n feat' o' r' c v hfill h' hc hv']
+end
+
+
+/-! ## batches: acceptance and row equivariance -/
+
+theorem mem_selectRows {α : Type} {idx : List Nat} {x : List α} {a : α} (h : a ∈ selectRows idx x) : a ∈ x := by
+  simp only [selectRows, List.mem_filterMap] at h
+  obtain ⟨i, _, hi⟩ := h
+  exact mem_of_getElem? hi
+
+theorem selectRows_getElem? {α : Type} (idx : List Nat) (x : List α) (hidx : ∀ i ∈ idx, i < x.length) (k : Nat) :
+    (selectRows idx x)[k]? = (idx[k]?).bind (x[·]?) := by
+  induction idx generalizing k with
+  | nil => simp [selectRows]
+  | cons i is ih =>
+    have hi : i < x.length := hidx i (List.mem_cons_self ..)
+    have his : ∀ j ∈ is, j < x.length := fun j hj => hidx j (List.mem_cons_of_mem _ hj)
+    have hx : x[i]? = some x[i] := List.getElem?_eq_getElem hi
+    simp only [selectRows, List.filterMap_cons, hx]
+    cases k with
+    | zero => simp [hx]
+    | succ k => simpa [selectRows] using ih his k
+
+theorem selectRows_length {α : Type} (idx : List Nat) (x : List α) (hidx : ∀ i ∈ idx, i < x.length) :
+    (selectRows idx x).length = idx.length := by
+  induction idx with
+  | nil => simp [selectRows]
+  | cons i is ih =>
+    have hi : i < x.length := hidx i (List.mem_cons_self ..)
+    have his : ∀ j ∈ is, j < x.length := fun j hj => hidx j (List.mem_cons_of_mem _ hj)
+    have hx : x[i]? = some x[i] := List.getElem?_eq_getElem hi
+    simp only [selectRows, List.filterMap_cons, hx, List.length_cons]
+    simpa [selectRows] using ih his
+
+theorem zipWith_map_same {ρ α β γ : Type} (F : α → β → γ) (g : ρ → α) (h : ρ → β) (x : List ρ) :
+    List.zipWith F (x.map g) (x.map h) = x.map fun a => F (g a) (h a) := by
+  induction x with
+  | nil => rfl
+  | cons a as ih => simp [ih]
+
+theorem rect_selectRows {α : Type} (idx : List Nat) (x : Mat α) (B C : Nat) (h : Rect x B C)
+    (hidx : ∀ i ∈ idx, i < B) : Rect (selectRows idx x) idx.length C := by
+  refine ⟨selectRows_length idx x (by rw [h.1]; exact hidx), ?_⟩
+  intro row hrow
+  exact h.2 row (mem_selectRows hrow)
+
+section
+variable {R : Type} (S : SOps R)
+
+theorem feat_selectRows_wf (idx : List Nat) (feat : Feat R) (B C : Nat) (h : Feat.WF feat B C)
+    (hidx : ∀ i ∈ idx, i < B) : Feat.WF (feat.selectRows idx) idx.length C := by
+  cases feat <;> simp only [Feat.selectRows, Feat.WF] at h ⊢
+  · exact rect_selectRows idx _ B C h hidx
+  · exact rect_selectRows idx _ B C h hidx
+  · exact rect_selectRows idx _ B C h hidx
+  · exact rect_selectRows idx _ B C h hidx
+  · exact selectRows_length idx _ (by rw [h]; exact hidx)
+
+/-- `na_forward` commutes with taking a batch -/
+theorem naForward_selectRows (fill : Option (Fill R)) (feat f1 : Feat R) (idx : List Nat)
+    (h : naForward S fill feat = some f1) :
+    naForward S fill (feat.selectRows idx) = some (f1.selectRows idx) := by
+  have hsel : ∀ {α β γ : Type} (f : α → β → γ) (x : Mat α) (v : List β),
+      bcast2 f (selectRows idx x) v = selectRows idx (bcast2 f x v) := by
+    intro α β γ f x v
+    simp only [bcast2, selectRows, List.map_filterMap, List.getElem?_map]
+  cases fill with
+  | none => simp only [naForward] at h ⊢; injection h with h; subst h; rfl
+  | some fl =>
+    cases fl <;> cases feat <;> simp only [naForward, Feat.selectRows] at h ⊢ <;> try (cases h; done)
+    all_goals (injection h with h; subst h; simp only [Feat.selectRows, hsel])
+
+theorem all_selectRows {α : Type} (p : α → Bool) (idx : List Nat) (x : List α) (h : x.all p = true) :
+    (selectRows idx x).all p = true := by
+  simp only [List.all_eq_true] at h ⊢
+  intro a ha
+  exact h a (mem_selectRows ha)
+
+/-- `encode_forward` accepts every batch of a frame it accepts (empty batches and repeated rows included) -/
+theorem encodeForward_accepts_batch (p : Params R) (ch C : Nat) (feat : Feat R) (y : T3 R) (idx : List Nat)
+    (h : encodeForward S p ch C feat = some y) :
+    ∃ y', encodeForward S p ch C (feat.selectRows idx) = some y' := by
+  cases p <;> cases feat <;> simp only [encodeForward, Feat.selectRows] at h ⊢ <;> try (cases h; done)
+  · exact ⟨_, rfl⟩
+  · exact ⟨_, rfl⟩
+  · exact ⟨_, rfl⟩
+  · exact ⟨_, rfl⟩
+  · exact ⟨_, rfl⟩
+  · -- EmbeddingEncoder: the index matrix is a row-wise function of the input
+    rename_i off t x
+    have hrow : ∀ z : Mat Int,
+        zip2 (fun (m : Bool) (i : Int) => if m then 0 else i) (map2 (fun v => decide (v < 0)) z)
+          (map2 (· + 1) (bcast2 (· + ·) z off)) =
+        z.map fun row => List.zipWith (fun (m : Bool) (i : Int) => if m then 0 else i)
+          (row.map fun v => decide (v < 0)) ((List.zipWith (· + ·) row off).map (· + 1)) := by
+      intro z
+      simp only [zip2, map2, bcast2, List.map_map, Function.comp_def, zipWith_map_same]
+    unfold embeddingEncode at h ⊢
+    simp only [hrow] at h ⊢
+    split at h
+    · rename_i hall
+      rw [List.all_map] at hall
+      have := all_selectRows _ idx x hall
+      rw [← List.all_map] at this
+      simp only [this, if_true]
+      exact ⟨_, rfl⟩
+    · cases h
+  · rename_i mode ts x
+    unfold bagEncode at h ⊢
+    split at h
+    · rename_i hall
+      have := all_selectRows _ idx x hall
+      simp only [this, if_true]
+      exact ⟨_, rfl⟩
+    · cases h
+  · rename_i ys mv os w b x
+    unfold timestampEncode at h ⊢
+    simp only at h ⊢
+    split at h
+    · rename_i hall
+      simp only [bcast2, List.all_map] at hall ⊢
+      have := all_selectRows _ idx x hall
+      simp only [this, if_true]
+      exact ⟨_, rfl⟩
+    · cases h
+  · rename_i ds ws bs off vals
+    unfold linearEmbEncode at h ⊢
+    split at h
+    · rename_i hall
+      have := all_selectRows _ idx vals hall
+      simp only [this, if_true]
+      exact ⟨_, rfl⟩
+    · cases h
+
+/-- C12 "accepts any batch": if the encoder accepts a frame it accepts every selection of its rows - a single
+    row, the empty selection, repetitions, permutations - and returns the shape `[|idx|, C, ch]` -/
+theorem forward_accepts_batch (e : Encoder R) (B C n : Nat) (feat : Feat R) (o : Out R) (idx : List Nat)
+    (h : forward S e B C n feat = some o) :
+    ∃ o', forward S e idx.length C n (feat.selectRows idx) = some o' ∧ o'.b = idx.length ∧ o'.c = C ∧ o'.ch = e.ch := by
+  unfold forward at h ⊢
+  split at h
+  · cases h
+  · rename_i hn
+    simp only [hn, if_false]
+    cases h1 : naForward S e.fill feat with
+    | none => simp [h1, bind, Option.bind] at h
+    | some f1 =>
+      cases h2 : encodeForward S e.params e.ch C f1 with
+      | none => simp [h1, h2, bind, Option.bind] at h
+      | some y =>
+        obtain ⟨y', hy'⟩ := encodeForward_accepts_batch S e.params e.ch C f1 y idx h2
+        simp only [naForward_selectRows S e.fill feat f1 idx h1, hy', bind, Option.bind, pure]
+        exact ⟨_, rfl, rfl, rfl, rfl⟩
+
+/-- number of rows actually stored in a block -/
+def Feat.len : Feat R → Nat
+  | .num x => x.length | .cat x => x.length | .bags x => x.length | .time x => x.length
+  | .emb _ vals => vals.length
+
+theorem cell_selectRows {α : Type} (idx : List Nat) (x : Mat α) (hidx : ∀ i ∈ idx, i < x.length) (k c : Nat) :
+    cell (selectRows idx x) k c = (idx[k]?).bind fun i => cell x i c := by
+  unfold cell
+  rw [selectRows_getElem? idx x hidx k]
+  cases idx[k]? <;> simp
+
+theorem cellAt_selectRows (p : Params R) (feat : Feat R) (idx : List Nat) (hidx : ∀ i ∈ idx, i < feat.len) (k c : Nat) :
+    cellAt p (feat.selectRows idx) k c = (idx[k]?).bind fun i => cellAt p feat i c := by
+  cases feat <;> simp only [Feat.len] at hidx <;> simp only [cellAt, Feat.selectRows]
+  · rw [cell_selectRows idx _ hidx]; cases idx[k]? <;> simp
+  · rw [cell_selectRows idx _ hidx]; cases idx[k]? <;> simp
+  · rw [cell_selectRows idx _ hidx]; cases idx[k]? <;> simp
+  · rw [cell_selectRows idx _ hidx]; cases idx[k]? <;> simp
+  · cases p <;> simp only <;> try (cases idx[k]? <;> simp; done)
+    rw [selectRows_getElem? idx _ hidx]
+    cases idx[k]? <;> simp
+
+/-- row `k` of the encoding of the batch `tf[idx]` is row `idx[k]` of the encoding of `tf`: encoders are
+    equivariant under every row selection, in particular under every permutation of the rows -/
+theorem batch_rows_equivariant (e : Encoder R) (B C n : Nat) (feat : Feat R) (o o' : Out R) (idx : List Nat)
+    (k i c : Nat) (v : CellVal R) (hfill : Fill.WF e.fill C) (hc : c < C)
+    (hidx : ∀ j ∈ idx, j < feat.len)
+    (h : forward S e B C n feat = some o)
+    (h' : forward S e idx.length C n (feat.selectRows idx) = some o')
+    (hk : idx[k]? = some i) (hv : cellAt e.params feat i c = some v) :
+    cell o'.data k c = cell o.data i c := by
+  have hv' : cellAt e.params (feat.selectRows idx) k c = some v := by
+    rw [cellAt_selectRows e.params feat idx hidx k c, hk]; exact hv
+  exact (perturb_local S e B idx.length C n feat (feat.selectRows idx) o o' i k c v hfill hc h h' hv hv').symm
+end
+
 end TFVerif.Enc
